@@ -625,7 +625,12 @@ func replaceVal(e *Expr, v ssa.Value, repl *Expr) *Expr {
 }
 
 // Instances expands a call site whose arguments contain a merge of constants into one instance per incoming edge.
-func (p *Program) Instances(cs *CallSite) []*CallSite {
+func (p *Program) Instances(cs *CallSite) []*CallSite { return p.instances(cs, true) }
+
+// InstancesAny also resolves merges of arbitrary values (`v := a; if c { v = b }; f(v)`).
+func (p *Program) InstancesAny(cs *CallSite) []*CallSite { return p.instances(cs, false) }
+
+func (p *Program) instances(cs *CallSite, constOnly bool) []*CallSite {
 	if cs.PhiPick != nil {
 		return []*CallSite{cs}
 	}
@@ -637,9 +642,11 @@ func (p *Program) Instances(cs *CallSite) []*CallSite {
 			if !ok || s.Op != "phi" || s.Name != "" || ph.Parent() != cs.Fn {
 				return
 			}
-			for _, a := range s.Args {
-				if a.Op != "const" {
-					return
+			if constOnly {
+				for _, a := range s.Args {
+					if a.Op != "const" {
+						return
+					}
 				}
 			}
 			if pick != ph {
